@@ -564,7 +564,7 @@ func plantNumeric(r *rng.R, p *Prog, g *gen) string {
 }
 
 func runC09(c *checker, r *rng.R) {
-	n := 5000
+	n := 100000
 	if *tier == "thorough" {
 		n = 150000
 	}
